@@ -96,6 +96,15 @@ def meta_expectation(path, op, value, thread, threads, models_by_name):
         if op == "delete":
             # the base model 'O' is always enabled (C14 known finding); any other model must be required by somebody
             return True if (uses and not others and name != "ovni") else None
+        # altered: whichever thread carries it, a version that does not parse as x.y.z or that the model's own
+        # version does not satisfy (other major, greater minor) must make the emulator fail
+        if isinstance(value, str) and mid:
+            have = [int(x) for x in [m for m in models_by_name.values() if m[1] == name][0][2].split(".")]
+            mm = re.match(r"^(\d+)\.(\d+)\.(\d+)$", value)
+            if not mm:
+                return True
+            want = [int(x) for x in mm.groups()]
+            return True if (want[0] != have[0] or want[1] > have[1]) else None
         return None
     return None
 
@@ -213,8 +222,11 @@ def run(chk):
                     jset(m2, path, None, delete=True)
                     jobs.append({"k": "t%d_md%d_%s" % (k, ti, path), "cls": "meta-delete", "key": "meta-delete:" + path, "threads": th,
                                  "meta": {ti: json.dumps(m2).encode()}, "expect": meta_expectation(path, "delete", None, t, th, by_name)})
-                    for vi in range(chk.budget(3, 6)):
-                        v = r.choice(ALTER_VALUES)
+                    alts = [r.choice(ALTER_VALUES) for _ in range(chk.budget(3, 6))]
+                    if path.startswith("ovni.require.") and isinstance(jget(meta, path), str) and re.match(r"^\d+\.\d+\.\d+$", jget(meta, path)):
+                        hv = [int(x) for x in jget(meta, path).split(".")]
+                        alts += ["%d.%d.0" % (hv[0] + 1, hv[1]), "%d.%d.0" % (hv[0], hv[1] + 1), "%d.%d" % (hv[0], hv[1])]
+                    for vi, v in enumerate(alts):
                         if v == jget(meta, path):
                             continue
                         m2 = json.loads(json.dumps(meta))
